@@ -666,44 +666,20 @@ func checkC20(c *Ctx, r *Report) {
 				r.Fail("C20.R6", "Harden: next handler call", c.Pos(cl.Pos()), "next.ServeHTTP not found")
 				continue
 			}
-			okGuard := false
-			detail := ""
-			for _, b := range cl.Blocks {
-				iff, ok := b.Instrs[len(b.Instrs)-1].(*ssa.If)
-				if !ok {
-					continue
+			// every way out of the middleware that does not go through the next handler answers 403
+			is403 := func(in ssa.Instruction) bool {
+				x, ok := in.(*ssa.Call)
+				if !ok || calleeName(x) != "net/http.Error" {
+					return false
 				}
-				hdrs := map[string]bool{}
-				for _, l := range condLeaves(iff.Cond) {
-					if h, ok := headerGetOf(l); ok {
-						hdrs[h] = true
-					}
-				}
-				if !(hdrs["Origin"] && hdrs["Sec-Fetch-Site"]) {
-					continue
-				}
-				for si := range b.Succs {
-					// edge si must not reach next, must write 403
-					reaches := len(walkFrom(pos{b.Succs[si], 0}, nil, isInstr(next), nil)) > 0
-					if reaches {
-						continue
-					}
-					w403 := len(walkFrom(pos{b.Succs[si], 0}, nil, func(in ssa.Instruction) bool {
-						x, ok := in.(*ssa.Call)
-						if !ok || calleeName(x) != "net/http.Error" {
-							return false
-						}
-						v, ok := constInt(x.Call.Args[2])
-						return ok && v == 403
-					}, nil)) > 0
-					// and next must only be reachable via the other edge
-					if w403 && onlyViaEdge(cl, next, b, 1-si) {
-						okGuard = true
-						detail = "predicate over Origin and Sec-Fetch-Site; refuse edge writes 403 and cannot reach next.ServeHTTP"
-					}
-				}
+				v, ok := constInt(x.Call.Args[2])
+				return ok && v == 403
 			}
-			r.Check(okGuard, "C20.R6", "Harden: cross-site refusal dominates next.ServeHTTP", c.InstrPos(next), detail, "next.ServeHTTP is not guarded by a branch on both Origin and Sec-Fetch-Site whose refusing side answers 403")
+			var silent []string
+			for _, e := range exitsFromEntryAvoiding(cl, func(in ssa.Instruction) bool { return in == ssa.Instruction(next) || is403(in) }, nil) {
+				silent = append(silent, c.InstrPos(e))
+			}
+			r.Check(len(silent) == 0, "C20.R6", "Harden: cross-site refusal dominates next.ServeHTTP", c.InstrPos(next), "every exit that bypasses next.ServeHTTP passes http.Error(403); when the handler is reached is decided by the predicate table below", "the middleware can return without calling the next handler and without answering 403: "+strings.Join(silent, ", "))
 			// the predicate itself, as a truth table over the header tests: the next handler is reached exactly when
 			// the request has no Origin, or its Sec-Fetch-Site is absent / same-origin / same-site — and it is not a
 			// CORS preflight (OPTIONS with an Origin). No other input (a special-cased Origin value, another header)
